@@ -18,6 +18,7 @@ import (
 type Oblig struct {
 	TimeoutS  int // override (0 = default)
 	Reach     string
+	AssumeLine int // index of the script line that assumes this obligation's goal for what follows
 	StartCut  int  // script position where the CFG block of this obligation begins (-1: not a plain block)
 	MaybeDead bool // the path may legitimately be unreachable: not part of the vacuity check
 	Name      string
@@ -87,6 +88,7 @@ type Exec struct {
 	frameMemo    map[bool]*frameInfo
 	abruptExit   bool // the frame is being checked at a panicking exit
 	blockStart   map[string]int // reach condition of a CFG block -> script position where the block begins
+	deadBlocks   map[*ssa.BasicBlock]bool // blocks in which a callee that does not return (by its contract) was called
 	deadCtx      int // >0: obligations generated now lie on a path that may legitimately be dead
 	abruptOn     int
 	inlineN      int
@@ -157,7 +159,7 @@ func (ex *Exec) oblige(kind, label, goal string, p token.Pos) {
 	if root.con != nil && root.con.TimeoutS > 0 {
 		o.TimeoutS = root.con.TimeoutS
 	}
-	o.MaybeDead = ex.deadCtx > 0
+	o.MaybeDead = ex.deadCtx > 0 || ex.deadBlocks[ex.curBlock]
 	o.StartCut = -1
 	if ex.curBlock != nil && ex.curBlock.Index > 0 {
 		if sc, ok := ex.blockStart[r]; ok {
@@ -165,6 +167,7 @@ func (ex *Exec) oblige(kind, label, goal string, p token.Pos) {
 		}
 	}
 	ex.obligs = append(ex.obligs, o)
+	o.AssumeLine = len(ex.e.lines)
 	ex.e.assume(g)
 }
 
